@@ -1004,8 +1004,10 @@ def generations_case(tid, ncuts, pattern):
     return w, rec
 
 
-def old_peer_case(tid):
-    """the peer cannot dilate: pending and future subchannel connect() calls fail with OldPeerCannotDilateError"""
+def old_peer_case(tid, dilate_when="first"):
+    """the peer cannot dilate: pending and future subchannel connect() calls fail with OldPeerCannotDilateError - whether the
+    application calls dilate() first thing (`first`) or only once the peer's versions are in (`after-versions`: an application that
+    looks at get_versions() before deciding)"""
     from ..mbworld import MailboxWorld as MW
     from twisted.internet import protocol
     mb = MW(seed=1, clients=(("F", "deferred"), ("L", "deferred")), sides=SIDE_BYTES, dilation=True)
@@ -1018,13 +1020,20 @@ def old_peer_case(tid):
     old = Client(mb, "F", "appid", "deferred", SIDE_BYTES["F"], dilation=False)
     mb.clients["F"] = old
     results = []
-    api = mb.clients["L"].w.dilate()
-    d1 = api.connector_for("proto").connect(protocol.Factory.forProtocol(protocol.Protocol))
-    d1.addBoth(results.append)
+    if dilate_when == "first":
+        api = mb.clients["L"].w.dilate()
+        d1 = api.connector_for("proto").connect(protocol.Factory.forProtocol(protocol.Protocol))
+        d1.addBoth(results.append)
     for n in ("L", "F"):
         mb.apply({"a": "ConnOpen", "c": n})
         mb.apply({"a": "AppSetCode", "c": n, "code": "4-alpha-beta"})
     mb.drain()
+    if dilate_when != "first":
+        api = mb.clients["L"].w.dilate()
+        d1 = api.connector_for("proto").connect(protocol.Factory.forProtocol(protocol.Protocol))
+        d1.addBoth(results.append)
+        mb.settle()
+        mb.drain()
     d2 = api.connector_for("proto").connect(protocol.Factory.forProtocol(protocol.Protocol))
     d2.addBoth(results.append)
     mb.settle()
@@ -1178,9 +1187,9 @@ def run(prop, tier):
                 ndrift += 1
                 if len(cov["drift"]) < 8:
                     cov["drift"].append(dict(drift, tid=tid, origin=origin, schedule=w.schedule[:drift["step"] + 1], no_listen=sorted(nolisten)))
-        if prop == "C17":
+        for dilate_when in (("first", "after-versions") if prop == "C17" else ()):
             tid += 1
-            op = old_peer_case(tid)
+            op = old_peer_case(tid, dilate_when)
             records.append({"tid": tid, "snaps": [], "final": {"L": {"mgr": "-", "ctr": "-", "sel": 0, "role": "-", "closed": op["closed"]},
                                                                  "F": {"mgr": "-", "ctr": "-", "sel": 0, "role": "-", "closed": True}},
                             "internal": [], "benign": 0, "stopCalled": {"L": True, "F": False}, "origin": "old-peer",
@@ -1189,7 +1198,7 @@ def run(prop, tier):
                                       "F": {"mgr": "-", "ctr": "-", "sel": 0, "role": "-", "closed": True}},
                             "restStopDue": {"L": False, "F": False}, "restConvergenceDue": False,
                             "oldpeer": {"ok": op["ok"], "closed": op["closed"]}})
-            meta[tid] = {"schedule": [["old-peer-case"]], "results": op["results"]}
+            meta[tid] = {"schedule": [["old-peer-case", dilate_when]], "results": op["results"]}
         # family: the relay is the only path (nobody can be dialled), known to one side or both; reconnects through it
         nrelay = 0
         for has in (("L",), ("F",), ("L", "F")):
